@@ -109,4 +109,31 @@ theorem maskAndBack_allpass (e : R → V) (he : ∀ a b, e (a + b) = e a * e b) 
   rw [mdft1_smul, allpass_1d e he he0 m My horthy hm sy (fun j' => f j' i) j hj]
   ring
 
+
+theorem mdft1_zero (e : R → V) (n N : Nat) (α s : R) (l : Nat) : mdft1 e n N α s (fun _ => 0) l = 0 := by
+  simp [mdft1_eq_sum]
+
+/-- 2-D pad-embedding invariance of the transform (constants unchanged) -/
+theorem mdft2_embed (e : R → V) (m n m' n' M N : Nat) (hm : m ≤ m') (hn : n ≤ n') (αy αx sy sx : R) (norm : V)
+    (f : Nat → Nat → V) (k l : Nat) :
+    mdft2 e m' n' M N αy αx sy sx norm (embed m n m' n' f) k l = mdft2 e m n M N αy αx sy sx norm f k l := by
+  simp only [mdft2]
+  congr 1
+  have h : (fun j => mdft1 e n' N αx sx (embed m n m' n' f j) l)
+      = padded m m' (fun j0 => mdft1 e n N αx sx (f j0) l) := by
+    funext j
+    have hj : embed m n m' n' f j = fun i => padded m m' (fun j0 => padded n n' (f j0) i) j := rfl
+    rw [hj]
+    by_cases hc : m' / 2 - m / 2 ≤ j ∧ j < m' / 2 - m / 2 + m
+    · have h1 : (fun i => padded m m' (fun j0 => padded n n' (f j0) i) j)
+          = padded n n' (f (j - (m' / 2 - m / 2))) := by
+        funext i; simp only [padded, hc, and_self, if_true]
+      rw [h1, mdft1_pad_invariant e n n' N hn αx sx _ l]
+      simp only [padded, hc, and_self, if_true]
+    · have h1 : (fun i => padded m m' (fun j0 => padded n n' (f j0) i) j) = fun _ => 0 := by
+        funext i; simp only [padded, hc, if_false, ofInt_eq, Int.cast_zero]
+      rw [h1, mdft1_zero]
+      simp only [padded, hc, if_false, ofInt_eq, Int.cast_zero]
+  rw [h, mdft1_pad_invariant e m m' M hm]
+
 end C03Lemmas
